@@ -233,9 +233,12 @@ class Mon:
 
     def run(self, coro: Any, w: dict[str, Any], what: str) -> Any:
         try:
-            return vtime.run(coro)
+            return vtime.run(coro, cpu_limit=45.0)
         except vtime.Deadlock:
             self.ctx.violation(f"{what}/blocks-forever", "operation can never complete (nothing scheduled, nothing readable)", w)
+            return None
+        except vtime.Spinning:
+            self.ctx.violation(f"{what}/spins-without-yielding", "the operation burns CPU without ever reaching a suspension point (no timeout of the caller can end it)", w)
             return None
 
     def check_read(self, kind: str, msgs: list[bytes], cuts: list[int], gap: float, eof_at: int | None) -> None:
